@@ -236,6 +236,38 @@ def h_driver(ctx, driver, N, M, m, kind='vector', smooth=None):
         raise KeyError(driver)
 
 
+def h_matrix_seed(ctx, driver, layout):
+    """the seed point is a 2x2 matrix (C-ordered, or a transposed = Fortran-ordered view): the
+    drivers flatten it in row-major INDEX order, so the derivatives refer to numpy.ravel(X)"""
+    algopy = symx.load_algopy()
+    UTPM = algopy.UTPM
+    N = 4
+    mons, C = coeff_vars(ctx, 1, N, 3)
+    f = program(algopy, C, mons, 'scalar')
+    Xs = np.empty((2, 2), dtype=object)
+    for idx in np.ndindex(2, 2):
+        Xs[idx] = ctx.var('X%d%d' % idx)
+    if ctx.mode == 'sym':
+        base = npx.sarr(np.array(Xs.T, dtype=object).copy(), float)
+    else:
+        base = np.array(Xs.T.tolist(), dtype=float)
+    Xarr = base.T if layout == 'F' else (base.T.copy())
+    xs = [Xs[i, j] for i in range(2) for j in range(2)]          # row-major index order of X
+    flat = lambda a: np.asarray(plain(np.asarray(a, dtype=object)), dtype=object)
+    if driver == 'hessian':
+        H = flat(UTPM.extract_hessian(N, f(UTPM.init_hessian(Xarr))))
+        d2 = get_partials(ctx, f, xs, 2)
+        ref = np.array([[d2[(min(i, j), max(i, j))][0] for j in range(N)] for i in range(N)], dtype=object)
+        ctx.eq(H, ref, 'extract_hessian for a matrix-shaped seed point (%s layout)' % layout)
+    else:
+        u = UTPM.init_jacobian(Xarr)
+        y = f(u.reshape((N,)) if u.ndim != 1 else u)
+        J = flat(UTPM.extract_jacobian(y))
+        d1 = get_partials(ctx, f, xs, 1)
+        ref = np.array([d1[(n,)][0] for n in range(N)], dtype=object)
+        ctx.eq(J.reshape(ref.shape), ref, 'extract_jacobian for a matrix-shaped seed point (%s layout)' % layout)
+
+
 def h_tensor(ctx, N, d, m, full=False):
     """extract_tensor at a concrete integer point: residual linear in the coefficients"""
     algopy = symx.load_algopy()
@@ -359,6 +391,8 @@ def units(tier, seed):
         if drv in ('jacobian', 'jac_vec'):
             add('%s/matrix-valued result/N3' % drv, 'h_driver', driver=drv, N=3, M=1, m=0, smooth='matrix-valued')
         add('%s/integer-typed point' % drv, 'h_intpoint', o={'validate': False}, driver=drv, N=2)
+    for layout in ('C', 'F'):
+        add('hessian/matrix-shaped seed point/%s layout' % layout, 'h_matrix_seed', driver='hessian', layout=layout)
     for (N, d) in ([(1, 2), (2, 2), (2, 3), (3, 2), (2, 4)] if tier == 'quick' else
                    [(1, 2), (1, 3), (2, 2), (2, 3), (3, 2), (2, 4), (3, 3), (4, 2), (2, 5), (3, 4)]):
         add('tensor/N%d,d%d' % (N, d), 'h_tensor', o={'validate': False}, N=N, d=d, m=d + 1)
